@@ -269,16 +269,34 @@ Proof.
     repeat match goal with |- context [fail_start ?x] => destruct (fail_start_slots x) as [-> ->] end; auto.
 Qed.
 
+Lemma begin_start_slots s : cam_slot (begin_start s) = cam_slot s /\ sto_slot (begin_start s) = sto_slot s.
+Proof. destruct s. unfold begin_start, cam_slot, sto_slot. cbn. destruct valid; auto. Qed.
+Lemma begin_stop_slots ab s : cam_slot (begin_stop ab s) = cam_slot s /\ sto_slot (begin_stop ab s) = sto_slot s.
+Proof. destruct s. unfold begin_stop, cam_slot, sto_slot. cbn. destruct valid; auto. Qed.
+Lemma end_stop_slots s : cam_slot (end_stop s) = cam_slot s /\ sto_slot (end_stop s) = sto_slot s.
+Proof. destruct s. unfold end_stop, cam_slot, sto_slot. cbn. auto. Qed.
+Lemma config_slots s v n : cam_slot (s <| valid := v |> <| maxn := n |>) = cam_slot s /\ sto_slot (s <| valid := v |> <| maxn := n |>) = sto_slot s.
+Proof. destruct s. unfold cam_slot, sto_slot. cbn. auto. Qed.
+Lemma reset_slots s : cam_slot (set c_start (fun _ => TNone) s) = cam_slot s /\ sto_slot (set c_start (fun _ => TNone) s) = sto_slot s.
+Proof. destruct s. unfold cam_slot, sto_slot. cbn. auto. Qed.
+
 Lemma api_slots y g y' : step y (EvG g) = Some y' -> slots y' = slots y.
 Proof.
-  intros H. destruct y as [s0 s1 ap ic]. destruct s0, s1. destruct g; cbn in H;
+  intros H. rewrite !slots_eq. destruct y as [s0 s1 ap ic].
+  destruct g; cbn in H; cbv zeta in H; destruct ic; try discriminate H;
     repeat match type of H with
-           | Some _ = Some _ => inversion H; subst; clear H
-           | None = Some _ => discriminate H
-           | context [match ?x with _ => _ end] => destruct x eqn:?
-           end; try reflexivity;
-    unfold slots, begin_start, begin_stop, end_stop; cbn;
-    repeat match goal with |- context [if ?b then _ else _] => destruct b end; reflexivity.
+           | (if ?b then _ else _) = Some _ => destruct b
+           | (match ?x with _ => _ end) = Some _ => destruct x
+           end; try discriminate H; inversion H; subst; clear H; cbn -[cam_slot sto_slot begin_start begin_stop end_stop fail_start];
+    try reflexivity;
+    repeat match goal with
+           | |- context [cam_slot (begin_start ?s)] => destruct (begin_start_slots s) as [-> ->]
+           | |- context [cam_slot (begin_stop ?b ?s)] => destruct (begin_stop_slots b s) as [-> ->]
+           | |- context [cam_slot (end_stop ?s)] => destruct (end_stop_slots s) as [-> ->]
+           | |- context [cam_slot (fail_start ?s)] => destruct (fail_start_slots s) as [-> ->]
+           | |- context [cam_slot (?s <| valid := ?v |> <| maxn := ?n |>)] => destruct (config_slots s v n) as [-> ->]
+           | |- context [cam_slot (set c_start ?f ?s)] => destruct (reset_slots s) as [-> ->]
+           end; reflexivity.
 Qed.
 
 Lemma open_of_new i a e n o : dev_op e = Some (n, o) -> open_of (EvS i a e) = new_of n o.
@@ -389,4 +407,12 @@ Proof.
   destruct (lst_dec (m n)) as [E|[E|[E|E]]]; try tauto. exfalso.
   (* m n = LNew contradicts the fact that an open of n was accepted *)
   destruct (lc_new_unopened n _ _ _ L E) as (_ & Hni). apply Hni. rewrite Ho. exact Hn.
+Qed.
+
+(* acquire_start on a running runtime: refused before any device is touched; what follows is the abort of the error path *)
+Theorem start_refused_touches_no_device y y' :
+  step y (EvG GStartRefused) = Some y' -> slots y' = slots y /\ in_call y' = InStartFail /\ in_call y = InStartBusy.
+Proof.
+  intros H. split; [eapply api_slots; eauto|]. cbn in H. destruct (in_call y) eqn:E; try discriminate H. cbv zeta in H.
+  match type of H with (if ?b then _ else _) = _ => destruct b end; [|discriminate]. inversion H; subst; clear H. cbn. auto.
 Qed.
